@@ -55,6 +55,15 @@ CLAIMED["C16"] = dict(
     text="Proved: proper mode builds the same lattice, has the same edges, same candidate set, and adds exactly PROPER_BONUS per proper noun; every context only adds to the normal set; no result begins with an ancillary particle/auxiliary. "
          "Refuted with a witness (C16_added_begin_with_suffix_refuted, known finding F10): foreign-word context adds 新は, which begins with a prefix.",
     note="full, with one recorded known finding (F10). " + KKC_NOTE, ref="6/C16")
+CLAIMED["C17"] = dict(
+    technique="Coq proof (termination, ASCII-only on the client class, ASCII in place, longest-match units; client round trip computed over the two regenerated tables) + correspondence + client evaluator",
+    text="Kernel-checked: convert terminates on every input; on [a-zA-Z0-9ぁ-ん] the output is lower-case ASCII letters/digits only (C17_ascii_only, by induction with table facts computed on the regenerated table); "
+         "ASCII characters stay in place lower-cased (C17_ascii_in_place); the result is the concatenation of unit spellings, a table unit being a longest match (C17_units, C17_longest_unit); "
+         "for every table unit except ん the spelling, alone and after a sokuon, is typed back to exactly that unit by the model of the client's romaji engine over chokan.el's table (C17_client_roundtrip), "
+         "and the server's doubling consonants are exactly the client's (C17_same_consonants).",
+    note="full on NFC input over the client class; NFC normalisation, Unicode to_lowercase of non-ASCII cased letters, katakana/NFD equivalence are exercised on the implementation only. "
+         "Three genuine defects were repaired (F8a-c). Trusted: Coq kernel, translators gen_kana/gen_elisp, the elisp evaluator standing in for Emacs.",
+    ref="6/C17")
 PENDING = {}
 
 def main():
